@@ -100,7 +100,7 @@ impl LruManager {
             free_idx
         } else {
             // Evict LRU tail to make room
-            let Some(evicted) = self.evict_tail() else {
+            let Some(evicted) = self.detach_tail() else {
                 return false;
             };
             evicted
@@ -124,6 +124,16 @@ impl LruManager {
     /// Returns the freed slot index, or `None` if the list is empty.
     ///
     pub fn evict_tail(&mut self) -> Option<u32> {
+        let tail = self.detach_tail()?;
+        // The slot is not reused by the caller: return it to the free list,
+        // otherwise the table permanently loses one entry of capacity.
+        self.free_list.push(tail);
+        Some(tail)
+    }
+
+    /// Detach the LRU tail and clear its slot without putting the slot on
+    /// the free list (the caller reuses it immediately).
+    fn detach_tail(&mut self) -> Option<u32> {
         let tail = self.header.lru_tail;
         if tail == LRU_SENTINEL {
             return None;
